@@ -507,6 +507,11 @@ func runQC(sh *shard, c *qcCase, expLine string, sum *sumT) {
 	}
 	ctx, cancel := context.WithCancel(context.Background())
 	defer cancel()
+	if len(c.arr) > 0 && c.arr[0].kind == 'c' {
+		// a context end that is the first event precedes the call (the schedule the Lean driver assumes, see
+		// Driver/QC.lean runCase); every later one is issued after the arrival before it has been consumed
+		cancel()
+	}
 	if c.burst {
 		sh.qs.Delay = func() { time.Sleep(2 * time.Millisecond) }
 		defer func() { sh.qs.Delay = nil }()
@@ -514,7 +519,32 @@ func runQC(sh *shard, c *qcCase, expLine string, sum *sumT) {
 	resCh := make(chan callResult, 1)
 	var fu future
 	if isAsync {
-		fu = asyncCall(cfg, c.method, ctx, req, perNode)
+		// under a watchdog: the call hands its requests to every node before it returns the future and
+		// waits there for as long as a node's sender is wedged (known findings of C09)
+		type startT struct {
+			fu  future
+			pan string
+		}
+		started := make(chan startT, 1)
+		go func() {
+			defer func() {
+				if p := recover(); p != nil {
+					started <- startT{pan: fmt.Sprint("panic: ", p)}
+				}
+			}()
+			started <- startT{fu: asyncCall(cfg, c.method, ctx, req, perNode)}
+		}()
+		select {
+		case st := <-started:
+			if st.pan != "" {
+				sh.caseFail(Mismatch{Property: "C02", Case: caseLine, Expected: "call returns a future", Observed: st.pan}, false)
+				return
+			}
+			fu = st.fu
+		case <-time.After(10 * time.Second):
+			sh.caseFail(Mismatch{Property: "C02", Case: caseLine, Expected: "call returns a future", Observed: "the call did not return within 10s"}, true)
+			return
+		}
 		if strings.HasPrefix(expOut, "inc::0") && c.expected() == 0 {
 			// may complete immediately
 		} else if fu.done() && len(c.arr) > 0 && c.arr[0].kind != 'c' && c.expected() > 0 {
@@ -575,6 +605,12 @@ func runQC(sh *shard, c *qcCase, expLine string, sum *sumT) {
 			break
 		}
 		if a.kind == 'c' {
+			if !strings.HasPrefix(expOut, "ctx:") {
+				// the arrivals before this one decide the call (the model says so): the context must end after
+				// the loop has been through its exhaustion test, i.e. after the call has returned — "consumed"
+				// (the quorum function's log entry) is signalled a moment before that test
+				waitFor(2*time.Second, returned)
+			}
 			cancel()
 			break
 		}
@@ -629,26 +665,22 @@ func runQC(sh *shard, c *qcCase, expLine string, sum *sumT) {
 			}
 		default:
 			obs, notes = canonErr(res.err)
-			if hasCancel(c) && strings.HasPrefix(obs, "inc:") && strings.HasPrefix(expOut, "ctx:") && strings.Contains(res.err.Error(), ": context canceled") {
-				// every outstanding request was answered locally with the context's own error
-				// before the loop noticed the context: reported as Incomplete (see C08, finding
-				// ctx-end-reported-as-incomplete); the node list without those entries must match
-				sum.count("ctx-end-reported-as-incomplete")
-				var keep []string
-				for id, t := range nodeErrTexts(res.err) {
-					if !strings.Contains(t, "context canceled") {
-						keep = append(keep, id)
+			if hasCancel(c) && strings.HasPrefix(obs, "inc:") && strings.HasPrefix(expOut, "ctx:") {
+				// the context had ended and the call reports Incomplete: every outstanding request was
+				// answered locally before the loop noticed the context (C08; repaired by incompleteCause)
+				sum.known("C08:ctx-end-reported-as-incomplete")
+			}
+			if hasCancel(c) {
+				fed := map[string]bool{}
+				for _, a := range c.arr {
+					if a.kind == 'c' {
+						break
+					}
+					if a.kind == 'e' || a.kind == 'x' {
+						fed[strconv.Itoa(int(a.nid))] = true
 					}
 				}
-				_ = keep
-				parts := strings.Split(obs, ":")
-				var ids []string
-				for _, id := range strings.Split(parts[1], ".") {
-					if t := nodeErrTexts(res.err)[id]; id != "" && !strings.Contains(t, "context canceled") {
-						ids = append(ids, id)
-					}
-				}
-				obs = "ctx:" + strings.Join(ids, ".") + ":" + parts[2]
+				obs = ctxCanon(obs, fed)
 			}
 			if !res.nilResp {
 				notes = append(notes, "non-nil response together with an error")
